@@ -17,7 +17,16 @@ Import ListNotations.
 
 Inductive fault : Type := FOk | FErr | FDisc.
 Inductive tstate : Type := TNone | TActive | TInactive.
-Inductive code : Type := ROk | RErr | RDisc | RPending | RInvalidReq.
+(* RCustom d: a handle_error listener returned / raised its own exception, which replaces the error; [d] is the
+   classification (is_disconnect) the handler ended with - invisible in the exception, visible in the state *)
+Inductive code : Type := ROk | RErr | RDisc | RPending | RInvalidReq | RCustom (d : bool).
+
+(* one handle_error listener: what it assigns to ctx.is_disconnect / ctx.invalidate_pool_on_disconnect (None:
+   untouched) and how it ends: 0 returns None, 1 returns an exception, 2 raises an exception *)
+Record lbeh : Type := mkl { lb_d : option bool; lb_p : option bool; lb_out : nat }.
+
+Definition is_disc (c : code) : bool :=
+  match c with RDisc => true | RCustom d => d | _ => false end.
 Inductive op : Type := OExec | OBegin | OCommit | ORollback | OSavepoint | ORollbackSp | OReleaseSp.
 
 (* DBAPI call kinds in the log *)
@@ -49,8 +58,7 @@ Definition add_log (s : st) (k cid : nat) : st :=
 
 Section Model.
   Variable faults : nat -> fault.   (* what the n-th DBAPI call does *)
-  Variable lst : nat.               (* handle_error listener: 0 none, 1 disconnect -> not, 2 any error ->
-                                       disconnect, 3 invalidate_pool_on_disconnect = False, other: inert *)
+  Variable lst : list lbeh.         (* the handle_error listeners, in registration order *)
 
   (* a fault-consulting DBAPI call *)
   Definition dbcall (k cid : nat) (s : st) : st * fault :=
@@ -58,24 +66,58 @@ Section Model.
         (s_txn s) (s_nested s),
      faults (S (s_n s))).
 
-  (* classification after the listeners ran: (is_disconnect, invalidate_pool_on_disconnect) *)
-  Definition classify (f : fault) : bool * bool :=
-    let d := match f with FDisc => true | _ => false end in
-    (match lst with 1 => false | 2 => true | _ => d end, negb (Nat.eqb lst 3)).
+  Definition assign (o : option bool) (x : bool) : bool := match o with Some y => y | None => x end.
+
+  (* the listener loop: ctx.is_disconnect, ctx.invalidate_pool_on_disconnect, "an exception replaces the error";
+     a raising listener ends the loop (break) - what the listeners assigned so far is kept *)
+  Fixpoint run_chain (l : list lbeh) (d ip exn : bool) : bool * bool * bool :=
+    match l with
+    | [] => (d, ip, exn)
+    | b :: r =>
+        let d' := assign (lb_d b) d in
+        let ip' := assign (lb_p b) ip in
+        match lb_out b with
+        | 2 => (d', ip', true)
+        | 1 => run_chain r d' ip' true
+        | _ => run_chain r d' ip' exn
+        end
+    end.
+
+  (* Connection._is_disconnect, the instance attribute shadowing the class-level False: its value after one
+     run of the handler that started with the attribute at [flag], the dialect saying [d0], on a Connection
+     that is / is not already invalidated [inv] (the deletion does not look at it).  The model of the handler therefore starts
+     from flag = False. *)
+  Definition flag_after (flag d0 inv : bool) : bool :=
+    let f1 := if flag then true else d0 in            (* if not self._is_disconnect: self._is_disconnect = ... *)
+    let f2 := fst (fst (run_chain lst f1 true false)) in   (* if self._is_disconnect != ctx.is_disconnect: ... *)
+    if f2 then false else f2.                          (* finally: if self._is_disconnect: del ... *)
+
+  (* classification after the listeners ran: (is_disconnect, invalidate_pool_on_disconnect, replaced) *)
+  Definition classify (f : fault) : bool * bool * bool :=
+    run_chain lst (match f with FDisc => true | _ => false end) true false.
+
+  Definition err_code (d exn : bool) : code := if exn then RCustom d else if d then RDisc else RErr.
+
+  (* an exception that is not a DBAPI error travelling through the handler (PendingRollbackError out of
+     Connection.connection inside _commit_impl): the listeners still run and may replace it *)
+  Definition pass_code (c : code) : code :=
+    match run_chain lst false true false with (d, _, true) => RCustom d | _ => c end.
 
   (* _handle_dbapi_exception for a DBAPI error [f <> FOk] *)
   Definition handle (f : fault) (s : st) : st * code :=
-    let (d, ip) := classify f in
-    if d then
-      match s_cur s with
-      | Some (cid, _) =>
-          (* Pool._invalidate: stamp;  fairy.invalidate: close, record checked in empty;  Connection.invalidate *)
-          let clk := if ip then S (s_clock s) else s_clock s in
-          (mk (s_n s) ((K_CLOSE, cid) :: s_log s) (s_nconn s) clk (s_idle s ++ [None])
-              (if ip then clk else s_invt s) None (s_txn s) (s_nested s), RDisc)
-      | None => (s, RDisc)
-      end
-    else (s, RErr).
+    match classify f with
+    | (d, ip, exn) =>
+        if d then
+          match s_cur s with
+          | Some (cid, _) =>
+              (* Pool._invalidate: stamp;  fairy.invalidate: close, record checked in empty;  Connection.invalidate *)
+              let clk := if ip then S (s_clock s) else s_clock s in
+              (mk (s_n s) ((K_CLOSE, cid) :: s_log s) (s_nconn s) clk (s_idle s ++ [None])
+                  (if ip then clk else s_invt s) None (s_txn s) (s_nested s), err_code true exn)
+          | None => (s, err_code true exn)
+          end
+        else (s, err_code false exn)
+    end.
 
   (* a DBAPI call on the live connection wrapped in try/except -> _handle_dbapi_exception *)
   Definition call_or_handle (k cid : nat) (s : st) : st * code :=
@@ -159,7 +201,7 @@ Section Model.
     | TInactive => (s, RPending)
     | TActive =>
         match s_cur s with
-        | None => (set_txn s TInactive [], RPending)
+        | None => (set_txn s TInactive [], pass_code RPending)
         | Some (cid, _) =>
             let (s1, c) := call_or_handle K_COMMIT cid s in
             match c with
